@@ -201,66 +201,130 @@ func diffConst(a, b *Term) (int64, bool) {
 	return 0, false
 }
 
+// ---- linear normal form for +, -, * const: sum(coef_i * atom_i) + k  (mod 2^w)
+
+type linExpr struct {
+	atoms []*Term
+	coefs []uint64
+	k     uint64
+}
+
+func (ts *TS) linOf(t *Term, scale uint64, out *linExpr) {
+	switch t.Op {
+	case OConst:
+		out.k += t.K * scale
+		return
+	case OAdd:
+		ts.linOf(t.A, scale, out)
+		ts.linOf(t.B, scale, out)
+		return
+	case OSub:
+		ts.linOf(t.A, scale, out)
+		ts.linOf(t.B, -scale, out)
+		return
+	case OMul:
+		if t.B.Op == OConst {
+			ts.linOf(t.A, scale*t.B.K, out)
+			return
+		}
+	case OShl:
+		if t.B.Op == OConst && t.B.K < uint64(t.W) {
+			ts.linOf(t.A, scale<<t.B.K, out)
+			return
+		}
+	}
+	for i, a := range out.atoms {
+		if a == t {
+			out.coefs[i] += scale
+			return
+		}
+	}
+	out.atoms = append(out.atoms, t)
+	out.coefs = append(out.coefs, scale)
+}
+
+func (ts *TS) linBuild(w uint8, le *linExpr) *Term {
+	m := mask(w)
+	// sort atoms by id (insertion sort; lists are short)
+	for i := 1; i < len(le.atoms); i++ {
+		for j := i; j > 0 && le.atoms[j-1].id > le.atoms[j].id; j-- {
+			le.atoms[j-1], le.atoms[j] = le.atoms[j], le.atoms[j-1]
+			le.coefs[j-1], le.coefs[j] = le.coefs[j], le.coefs[j-1]
+		}
+	}
+	var pos, neg *Term
+	addTo := func(acc *Term, a *Term, c uint64) *Term {
+		x := a
+		if c != 1 {
+			if c&(c-1) == 0 {
+				x = ts.mk(&Term{Op: OShl, W: w, A: a, B: ts.Const(w, uint64(bits.TrailingZeros64(c)))})
+			} else {
+				x = ts.mk(&Term{Op: OMul, W: w, A: a, B: ts.Const(w, c)})
+			}
+		}
+		if acc == nil {
+			return x
+		}
+		return ts.mk(&Term{Op: OAdd, W: w, A: acc, B: x})
+	}
+	for i, a := range le.atoms {
+		c := le.coefs[i] & m
+		if c == 0 {
+			continue
+		}
+		if sext64(c, w) < 0 && c != (uint64(1)<<(w-1)) {
+			neg = addTo(neg, a, (-c)&m)
+		} else {
+			pos = addTo(pos, a, c)
+		}
+	}
+	k := le.k & m
+	var r *Term
+	switch {
+	case pos == nil && neg == nil:
+		return ts.Const(w, k)
+	case neg == nil:
+		r = pos
+	case pos == nil:
+		r = ts.mk(&Term{Op: OSub, W: w, A: ts.Const(w, 0), B: neg})
+	default:
+		r = ts.mk(&Term{Op: OSub, W: w, A: pos, B: neg})
+	}
+	if k != 0 {
+		r = ts.mk(&Term{Op: OAdd, W: w, A: r, B: ts.Const(w, k)})
+	}
+	return r
+}
+
 func (ts *TS) Add(a, b *Term) *Term {
 	w := a.W
 	if a.Op == OConst && b.Op == OConst {
 		return ts.Const(w, a.K+b.K)
 	}
-	if a.Op == OConst {
-		a, b = b, a
+	if b.Op == OConst && b.K == 0 {
+		return a
 	}
-	// now b may be const
-	if b.Op == OConst {
-		if b.K == 0 {
-			return a
-		}
-		if a.Op == OAdd && a.B.Op == OConst {
-			return ts.Add(a.A, ts.Const(w, a.B.K+b.K))
-		}
-		return ts.mk(&Term{Op: OAdd, W: w, A: a, B: b})
+	if a.Op == OConst && a.K == 0 {
+		return b
 	}
-	// (x + c1) + (y + c2) -> (x+y) + (c1+c2)
-	ba, ca := splitAdd(a)
-	bb, cb := splitAdd(b)
-	if ca != 0 || cb != 0 {
-		return ts.Add(ts.Add(ba, bb), ts.Const(w, ca+cb))
-	}
-	if a.id > b.id {
-		a, b = b, a
-	}
-	return ts.mk(&Term{Op: OAdd, W: w, A: a, B: b})
+	var le linExpr
+	ts.linOf(a, 1, &le)
+	ts.linOf(b, 1, &le)
+	return ts.linBuild(w, &le)
 }
 
 func (ts *TS) Sub(a, b *Term) *Term {
 	w := a.W
-	if b.Op == OConst {
-		return ts.Add(a, ts.Const(w, -b.K))
-	}
 	if a == b {
 		return ts.Const(w, 0)
 	}
-	if d, ok := diffConst(a, b); ok {
-		return ts.Const(w, uint64(d))
+	if b.Op == OConst && b.K == 0 {
+		return a
 	}
-	// (x + c) - y -> (x - y) + c
-	ba, ca := splitAdd(a)
-	bb, cb := splitAdd(b)
-	if (ca != 0 || cb != 0) && ba != nil && bb != nil {
-		return ts.Add(ts.Sub(ba, bb), ts.Const(w, ca-cb))
-	}
-	if ba == nil && bb != nil && cb != 0 {
-		return ts.Sub(ts.Const(w, ca-cb), bb)
-	}
-	// (x + y) - x -> y
-	if a.Op == OAdd {
-		if a.A == b {
-			return a.B
-		}
-		if a.B == b {
-			return a.A
-		}
-	}
-	return ts.mk(&Term{Op: OSub, W: w, A: a, B: b})
+	var le linExpr
+	ts.linOf(a, 1, &le)
+	ts.linOf(b, ^uint64(0), &le)
+	return ts.linBuild(w, &le)
 }
 
 func (ts *TS) Neg(a *Term) *Term {
@@ -285,13 +349,9 @@ func (ts *TS) Mul(a, b *Term) *Term {
 		if a.Op == OIte {
 			return ts.Ite(a.A, ts.Mul(a.B, b), ts.Mul(a.C, b))
 		}
-		if a.Op == OAdd && a.B.Op == OConst {
-			return ts.Add(ts.Mul(a.A, b), ts.Const(w, a.B.K*b.K))
-		}
-		if b.K&(b.K-1) == 0 {
-			return ts.Shl(a, ts.Const(w, uint64(bits.TrailingZeros64(b.K))))
-		}
-		return ts.mk(&Term{Op: OMul, W: w, A: a, B: b})
+		var le linExpr
+		ts.linOf(a, b.K, &le)
+		return ts.linBuild(w, &le)
 	}
 	// distribute over ite-of-constants to keep multipliers constant
 	if iteConstLeaves(b, 0) {
@@ -457,6 +517,11 @@ func (ts *TS) Shl(a, b *Term) *Term {
 		}
 		if a.Op == OConst {
 			return ts.Const(a.W, a.K<<b.K)
+		}
+		if a.Op == OAdd || a.Op == OSub {
+			var le linExpr
+			ts.linOf(a, uint64(1)<<b.K, &le)
+			return ts.linBuild(a.W, &le)
 		}
 	}
 	return ts.bin(OShl, a, b)
